@@ -216,8 +216,28 @@ def _param_scale(params):
     return m
 
 
-def cmp_matrix(M1, M2, rng, what, scale=1.0):
-    """element-wise comparison of two sympy matrices by numeric sampling"""
+def _chain_np(base, mods):
+    """numpy evaluation of a wrapper chain (outermost first) of controls / daggers / integer powers on a numeric
+    base matrix, inverses by LAPACK (partial pivoting)"""
+    W = np.asarray(base, dtype=complex)
+    for m in reversed(mods):
+        if m[0] == "C":
+            d = W.shape[0]
+            out = np.eye(d * 2 ** m[1], dtype=complex)
+            out[-d:, -d:] = W
+            W = out
+        elif m[0] == "D":
+            W = W.conj().T
+        elif m[0] == "P":
+            W = np.linalg.matrix_power(W, int(m[1]))
+        else:
+            raise ValueError(m)
+    return W
+
+
+def cmp_matrix(M1, M2, rng, what, scale=1.0, slack=0.0):
+    """element-wise comparison of two sympy matrices by numeric sampling; ``slack`` = absolute allowance on top of
+    the relative tolerance (the original's own evaluation error where the library's evaluation is unstable)"""
     if tuple(M1.shape) != tuple(M2.shape):
         return f"{what}: shape {M1.shape} -> {M2.shape}"
     if sympy.ImmutableMatrix(M1) == sympy.ImmutableMatrix(M2):
@@ -229,7 +249,7 @@ def cmp_matrix(M1, M2, rng, what, scale=1.0):
     for a in (_assignments(s1, rng) if s1 else [None]):
         A, B = _matrix_at(M1, a), _matrix_at(M2, a)
         d = L.maxdiff(A, B)
-        if not d <= 1e-12 * max(1.0, float(np.abs(A).max())) * scale:
+        if not d <= 1e-12 * max(1.0, float(np.abs(A).max())) * scale + slack:
             return f"{what}: matrices differ by {d:.3g} at {a}"
     return None
 
@@ -489,7 +509,21 @@ def consequences(mon, orig, img, rng, found):
             except Exception as e:
                 bad = f"op {i}: whole matrix of the image of {o1.gate} raised {e!r}"
                 break
-            bad = cmp_matrix(W1, W2, rng, f"op {i} whole gate ({o1.gate})", _param_scale(b1.params))
+            slack = 0.0
+            if any(m[0] == "P" and m[1] < 0 for m in m1):
+                # the library inverts through sympy (elimination without numerical pivoting, at the precision of the
+                # Float entries): with a tiny pivot the ORIGINAL's own whole-gate matrix is off from a stably
+                # computed one by far more than 1e-12, and so is the image's, differently.  The distance between
+                # the original's matrix and a LAPACK evaluation of the same chain on the same base matrix bounds
+                # what can be asked of original vs image (thorough-tier false alarm, DESIGN 9.17)
+                try:
+                    R1 = _chain_np(_matrix_at(M1, None), m1)
+                    slack = 4 * L.maxdiff(_matrix_at(W1, None), R1)
+                    if slack > 1e-12:
+                        mon.note("whole-gate matrix of the original is itself off a stable evaluation by > 1e-12")
+                except Exception:
+                    slack = 0.0
+            bad = cmp_matrix(W1, W2, rng, f"op {i} whole gate ({o1.gate})", _param_scale(b1.params), slack)
             if bad:
                 break
             mon.note("whole-gate matrices compared")
